@@ -168,7 +168,9 @@ def _c_body(d, o, depth, exists, as_path):
 # ------------------------------------------------------------------ C20.d command line converters
 # (durationless grace notes: their extended form 'cc·q' has a decoration separator but no token separator)
 SCORES = ('**kern\n*clefG2\n=1\n4c#L\nccq\n8.r;\n4e 4g-\n==\n*-\n',
-          '**kern\t**text\t**kern\t**kern\n*clefF4\t*\t*clefG2\t*clefG2\n=1\t=1\t=1\t=1\n4C\tla\t4e\t4g;\n2DJ\tli\t2f#\t2a\n==\t==\t==\t==\n*-\t*-\t*-\t*-\n',
+          # (a split and join in the kern spine LEFT of the text spine: columns shift below the split)
+          '**kern\t**text\t**kern\t**kern\n*clefF4\t*\t*clefG2\t*clefG2\n=1\t=1\t=1\t=1\n4C\tla\t4e\t4g;\n*^\t*\t*\t*\n4E\t4G\tlu\t4f\t4a\n8F\t8A\t.\t8g\t8b\n'
+          '*v\t*v\t*\t*\t*\n2DJ\tli\t2f#\t2a\n==\t==\t==\t==\n*-\t*-\t*-\t*-\n',
           '**kern\t**kern\n*clefG2\t*clefG2\n*M4/4\t*M4/4\n4c\t4e\nddq\t.\n=2\t=2\n4dn\t4f\n*-\t*-\n')
 
 
